@@ -18,6 +18,7 @@ def dispatch (line : String) : Verdict :=
   let toks := splitTokens line
   let (l, r) := splitBar toks
   match l with
+  | "C02" :: "hist" :: args => c02hist args r
   | "C02" :: args => c02 args r
   | "C03" :: args => c03 args r
   | "C04" :: args => c04 args r
